@@ -27,11 +27,12 @@ RULE = ("cases = generated dyadic specifications x {affine transformation of uti
         "model, degenerate stochastic transition}; distinct = structural signature x law; evaluations = array entries related by the law")
 ASSUMPTIONS = ["exact comparison on dyadic inputs (a, b, beta dyadic)", "rows of every transition array sum to one (generator)"]
 LAWS = ["affine", "beta0", "stationary", "degenerate"]
-FORCES = [None, ["filter"], ["stoch"], ["mixed"], ["constraint"], ["cont2"], ["aux"], ["stoch", "filter"], ["stoch3", "eqsize"], ["stoch3"]]
+FORCES = [None, ["filter"], ["stoch"], ["mixed"], ["constraint"], ["cont2"], ["aux"], ["stoch", "filter"], ["stoch3", "eqsize"], ["stoch3"],
+          ["constraint", "pconstraint", "noperiod"]]
 
 
 def cases(seed, tier):
-    n = 40 if tier == "quick" else 500
+    n = 44 if tier == "quick" else 528
     out = []
     for i in range(n):
         law = LAWS[i % 4]
